@@ -24,6 +24,9 @@ type gInfo struct {
 	inKFR     bool   // some frame is (*remoteKeySet).keysFromRemote
 	topKFR    bool   // innermost frame is keysFromRemote (i.e. blocked in its select)
 	atGate    bool   // some frame is the fake endpoint's RoundTrip
+	atSched   bool   // some frame is sched.Point: the goroutine is held at a yield point by the schedule
+	inLib     bool   // some frame is a function of the library under test
+	libTop    string // innermost library function on the stack (for witnesses)
 	createdBy string // function that created it
 	parent    int64  // goroutine that created it
 }
@@ -38,6 +41,8 @@ var headRe = regexp.MustCompile(`^goroutine (\d+) \[([^\],]+)`)
 var (
 	kfrSuffix  = []byte(".(*remoteKeySet).keysFromRemote")
 	gateSuffix = []byte("fakejwks.(*Server).RoundTrip")
+	schedPoint = []byte("verif/internal/sched.Point")
+	libPrefix  = []byte("github.com/zitadel/oidc/")
 	goroutineP = []byte("goroutine ")
 	createdP   = []byte("created by ")
 	inGorP     = []byte(" in goroutine ")
@@ -118,12 +123,33 @@ func parseDump(b []byte) map[int64]*gInfo {
 		if bytes.HasSuffix(fn, gateSuffix) {
 			g.atGate = true
 		}
+		if bytes.Equal(fn, schedPoint) {
+			g.atSched = true
+		}
+		if bytes.HasPrefix(fn, libPrefix) {
+			if !g.inLib {
+				g.libTop = string(fn)
+			}
+			g.inLib = true
+		}
 	}
 	return out
 }
 
 func (g *gInfo) blocked() bool {
 	return g.state == "select" || g.state == "chan receive" || strings.HasPrefix(g.state, "select (") || strings.HasPrefix(g.state, "chan receive (")
+}
+
+// stable: the goroutine waits for something only another goroutine can give it (a channel operation, a lock, a
+// condition); it cannot continue by itself. (A select may contain a timer case; callers of stable() therefore confirm a
+// state over several snapshots and treat "frozen" as inconclusive, never as a verdict.)
+func (g *gInfo) stable() bool {
+	for _, p := range []string{"select", "chan receive", "chan send", "semacquire", "sync.Mutex.Lock", "sync.RWMutex", "sync.Cond.Wait", "sync.WaitGroup.Wait"} {
+		if strings.HasPrefix(g.state, p) {
+			return true
+		}
+	}
+	return false
 }
 
 // spawnedByKeySet: a goroutine started from inside keysFromRemote (the download goroutine).
